@@ -15,9 +15,8 @@ MODES = ('LOGICAL', 'RAW', 'RGB')
 KINDS = ('real', 'int')
 
 
-def color_clauses(c, mode, D='D[2]'):
+def color_clauses(c, mode, D='D[2]', R='old(self._reg.%s)'):
     """clauses for the colour list `D` that was sent, given the pre-state registers."""
-    R = 'old(self._reg.%s)'
     if mode == 'LOGICAL':
         c.ensures('hue', 'hue_same(%s[0], sent_hue(%s))' % (D, R % 'hue'))
         c.ensures('saturation', '%s[1] == sent_pct(%s)' % (D, R % 'saturation'))
@@ -34,11 +33,11 @@ def color_clauses(c, mode, D='D[2]'):
         c.ensures('kelvin', '%s[3] == sent_u16(round_he(%s))' % (D, R % 'kelvin'))
 
 
-def duration_clause(c, mode, D='D[3]'):
+def duration_clause(c, mode, D='D[3]', R='old(self._reg.%s)'):
     if mode == 'RAW':
-        c.ensures('duration', '%s == sent_u32(old(self._reg.duration))' % D)
+        c.ensures('duration', '%s == sent_u32(%s)' % (D, R % 'duration'))
     else:
-        c.ensures('duration', '%s == sent_ms(old(self._reg.duration))' % D)
+        c.ensures('duration', '%s == sent_ms(%s)' % (D, R % 'duration'))
 
 
 def regs(b, m, mode, kind):
@@ -122,3 +121,48 @@ for mode in MODES:
                 c.ensures('level', 'D[2] == ite(old(self._reg.power), 65535, 0) and E[2] == D[2]')
             duration_clause(c, mode)
             c.ensures('same-duration-for-every-member', 'D[3] == E[3]')
+
+
+
+# ---- history independence: what a command transmits depends on the registers and unit mode AT THAT COMMAND, not on what
+#      an earlier command converted (a conversion cached across commands would be keyed on less than it depends on)
+for mode1 in MODES:
+    for mode2 in MODES:
+        names2 = ('red', 'green', 'blue', 'kelvin', 'duration') if mode2 == 'RGB' else ('hue', 'saturation', 'brightness', 'kelvin', 'duration')
+        body = '\n'.join('    m._reg.%s = n_%s' % (n, n) for n in names2)
+        c = contract(M, 'set_twice', serves=['C07', 'C01', 'C14'], name='lemma:set L; units %s; registers assigned; set L [from %s]' % (mode2, mode1),
+                     src='''
+def set_twice(m, mode2, %s):
+    m._color_light()
+    m._reg.unit_mode = mode2
+%s
+    m._color_light()
+''' % (', '.join('n_' + n for n in names2), body))
+        def setup(b, case, mode1=mode1, mode2=mode2, names2=names2):
+            impl = lib.device(b, 'dev')
+            n = b.sym('str', 'name')
+            light = lib.lifx_light(b, 'plain', impl, n)
+            ls = lib.light_set_with(b, {n: light})
+            m = lib.machine(b, mode1, ls)
+            r = regs(b, m, mode1, 'real')
+            r.attrs['name'] = n
+            # the FIRST command's registers range over the interior of their domains (no clamping, so few paths);
+            # the second command's registers are unconstrained
+            top = {'LOGICAL': {'hue': 359, 'saturation': 99, 'brightness': 99}, 'RAW': {'hue': 65534, 'saturation': 65534, 'brightness': 65534},
+                   'RGB': {'red': 99, 'green': 99, 'blue': 99}}[mode1]
+            for nm, hi in top.items():
+                b.between(r.attrs[nm], 1, hi)
+            b.between(r.attrs['kelvin'], 1000, 9000)
+            b.between(r.attrs['duration'], 0, 1000)
+            out = {'m': m, 'mode2': b.enum('bardolph.controller.units', 'UnitMode', mode2), '_impl': impl}
+            for nm in names2:
+                v = b.sym('real', 'second_' + nm)
+                if mode2 == 'RGB' and nm in ('red', 'green', 'blue'):
+                    b.between(v, 0, 100)
+                out['n_' + nm] = v
+            return out
+        c.setup(setup)
+        c.define('D', "ghost('Dev')[1]")
+        c.ensures('two-requests', "len(ghost('Dev')) == 2 and D[1] == 'set_color' and same(D[0], _impl)")
+        color_clauses(c, mode2, R='n_%s')
+        duration_clause(c, mode2, R='n_%s')
